@@ -59,7 +59,7 @@ check_out, check_rc = "", None
 if rc_a == 0:
     sh(f"git apply {patch}", cwd="/repo")
     try:
-        p = subprocess.run(f"./check {prop} quick", shell=True, cwd="/verif", capture_output=True, text=True, timeout=1800)
+        p = subprocess.run(f"VERIF_NO_EVIDENCE=1 ./check {prop} quick", shell=True, cwd="/verif", capture_output=True, text=True, timeout=1800)
         check_rc, check_out = p.returncode, p.stdout[-3000:]
     finally:
         sh(f"git apply -R {patch}", cwd="/repo")
